@@ -270,6 +270,10 @@ def check(run):
     check_order_independence(run, "R08.2", analyses)
     # imported decoder obligations
     C07.check_skip(run, "R08.3", "R08.3")
+    C07.check_skip_bookkeeping(run, "R08.3")    # an unknown member is skipped whole: nested levels leave the work stack
+    # the file's block array may be definite or indefinite: read_block ends both where they end (R05.7 imported)
+    from . import C05
+    C05.check_block_protocol(run, "R08.11")
     from . import C03
     C03.check_invalidation(run, "R08.3", run.facts, only_cls="CDNS::CdnsDecoder", floor=0)
     C07.check_stop_agreement(run, "R08.3")
